@@ -371,7 +371,7 @@ func (c20) Eval(c *Chooser, env *Env) *Outcome {
 			e := expect[c.Int("fault.inv", len(expect))]
 			kinds := []ToolFault{TFCannotStart, TFKilled, TFKilledOutput, TFNonzeroEmpty, TFEpipe}
 			if e.Tool == "shellcheck" {
-				kinds = append(kinds, TFGarbage, TFEmptyOK)
+				kinds = append(kinds, TFGarbage, TFEmptyOK, TFJSONGarbage)
 			}
 			k := kinds[c.Int("fault.kind", len(kinds))]
 			key := InvKey(e.Tool, e.Stdin)
